@@ -242,14 +242,15 @@ def run(ctx):
             good = [(c, r) for c, r in zip(cases, results) if 'crash' not in r]
             shards = {}
             for c, r in good:
-                shards.setdefault((c['vi'], c['cfg']['seed']), []).append((c, r))
+                shards.setdefault(c['vi'], []).append((c, r))
             jobs = []
-            for (vi, sd), items in sorted(shards.items()):
-                for off in range(0, len(items), 12):
-                    part = items[off:off + 12]
-                    defs = 'Definition the_cfg : cfg := %s.\n' % coq(cfg_literal(part[0][0], part[0][1]))
-                    exprs = ['run_case the_cfg [%s] %s' % ('; '.join(op_literal(o) for o in r['mops']), coq(Nat(r.get('noise', 1)))) for c, r in part]
-                    jobs.append(('cases_v%d_s%d_%d' % (vi, sd, off), defs, exprs, part))
+            for vi, items in sorted(shards.items()):
+                for off in range(0, len(items), 24):
+                    part = items[off:off + 24]
+                    seeds = sorted({c['cfg']['seed'] for c, r in part})
+                    defs = ''.join('Definition cfg_s%d : cfg := %s.\n' % (sd, coq(cfg_literal(*[x for x in part if x[0]['cfg']['seed'] == sd][0]))) for sd in seeds)
+                    exprs = ['run_case cfg_s%d [%s] %s' % (c['cfg']['seed'], '; '.join(op_literal(o) for o in r['mops']), coq(Nat(r.get('noise', 1)))) for c, r in part]
+                    jobs.append(('cases_v%d_%d' % (vi, off), defs, exprs, part))
             from concurrent.futures import ThreadPoolExecutor
             with ThreadPoolExecutor(NPROC) as ex:
                 outs = list(ex.map(lambda j: ctx.coq_eval(j[0], ['Plinio.Model.Ckpt'], j[1], j[2], 600), jobs))
